@@ -21,10 +21,10 @@ sides of the bridge; `Val.ty` is `reflect.TypeOf` (`none` for the nil interface)
   the result), one result → the value itself, otherwise a list.
 
 Numbers: a float64 is `Num.fin m e` (the real number `m·2^e`), `nan` or `inf`.
-Float → integer conversion truncates towards zero when the truncated value is in
-the range of the target kind; otherwise Go leaves the result implementation-defined
-— the model takes it from the oracle `oob` (any function; the correspondence run
-supplies the platform's values) and no theorem about exactness covers that case.
+A number for a parameter of integer kind is converted by truncation towards zero when the truncated value
+is in the range of the kind; otherwise the call is answered with an error (`numberFits`, the range check of
+`Run`) — Go would leave the result of such a conversion implementation-defined. The oracle `oob` of
+`convertNumber` stands for that implementation-defined value; behind the range check it is never consulted.
 `int`, `uint` and `uintptr` are 64 bit wide (amd64/arm64).
 -/
 namespace Ecal.Bridge
